@@ -42,4 +42,15 @@ CLAIMED = {
   "text": "Sound static decision of three structural clauses: the marker tables contain the JSON-relevant tuples, a region is passed whole or dropped whole with the exact consumed length, and the string-end computation examines backslashes (necessary condition only). Semantic transparency over all documents and segmentations is not decided.",
   "note": "Trusts bufio.Scanner's split-function contract and encoding/json.",
  },
+
+ "C09": {
+  "technique": "bit-provenance abstract interpretation of the SSA (symbolic bits, linear lengths, segment-list buffers) compared with a transcribed FLV layout table, in both directions; who-may-call rule on the reader",
+  "text": "For all flag combinations, type bytes, 32-bit timestamps and body lengths < 2^24 at once: the muxer's bytes equal the FLV v10 layout bit for bit and in order, the demuxer run on that layout returns each field's own bits, consumes exactly the item and has every index/slice proven in range. Body bytes are an opaque blob (data equality is not decided), tag sequences follow by induction.",
+  "note": "Trusts io.Copy/io.CopyN/bytes.Buffer models and my transcription of FLV Annex E.",
+ },
+ "C10": {
+  "technique": "bit-provenance abstract interpretation with complete enumeration of the discriminators (16 sound formats x Opus flag partitions, 16 codec ids), field-overlap detection, constant folding of the rate tables",
+  "text": "For every value of every field at once (format/codec discriminators enumerated completely): Encode emits exactly the FLV E.4.2/E.4.3 layout with no field bleeding into another, Decode run on that layout with payloads of any length accepts it, stays in bounds and returns each field's own bits and the payload; every defined rate code folds to its frequency. Payload bytes are an opaque blob.",
+  "note": "Field domains are those the property quantifies over (stated in the evidence assumptions); layout table transcribed from FLV Annex E and the Opus extension documented in flv.go.",
+ },
 }
